@@ -179,6 +179,11 @@ def new_frames(rng, case, obj, max_frames=12):
             fr2[raw] = fr2[raw].astype(float)
             fr2.iloc[0, fr2.columns.get_loc(raw)] = np.nan
             out.append((f"nan_injected:{f}", fr2, {"perturbed": raw}))
+            fr4 = take(5)
+            fr4[raw] = fr4[raw].astype(object)  # finite numbers held in an object column (frames built from records / JSON / SQL rows)
+            if rng.random() < 0.5 and interp.nan_group(snap, obj.str_nan) is not None:
+                fr4.iloc[0, fr4.columns.get_loc(raw)] = None
+            out.append((f"object_dtype:{f}", fr4, {"perturbed": raw}))
             if rng.random() < 0.5 and bounds:
                 fr3 = take(4)
                 fr3[raw] = np.array([int(round(b)) for b in (bounds * 4)[:len(fr3)]], dtype=np.int64)
@@ -186,6 +191,11 @@ def new_frames(rng, case, obj, max_frames=12):
         else:
             fr = take(6).astype({raw: object})
             unseen = gen.pick(rng, ["__never_seen__", "zzz", 987654, 3.25, "987654", " "])
+            # preferably a value that is unknown to f but known elsewhere in the frame (another feature, a non-feature column)
+            known_here = {interp.str_form(m) for _, mem in snap for m in mem}
+            elsewhere = [v for c in X.columns if c != raw and X[c].dtype == object for v in X[c].dropna().unique()[:20] if isinstance(v, str) and v not in known_here]
+            if elsewhere and rng.random() < 0.7:
+                unseen = elsewhere[int(rng.integers(len(elsewhere)))]
             fr.iloc[0, fr.columns.get_loc(raw)] = unseen
             out.append((f"unseen_category:{f}", fr, {"perturbed": raw}))
             fr2 = take(4).astype({raw: object})
